@@ -322,7 +322,7 @@ class Exec:
             self.pc = list(self.pre)
             self.facts = []
             self.effects = []
-            env = dict(args)
+            env = dict(self.opts["fresh_args"]()) if self.opts.get("fresh_args") else dict(args)   # fresh mutable state for every re-execution
             self._fnstack = [self.fn]
             for p, d in self.fn.defaults.items():
                 if p not in env:
@@ -342,6 +342,8 @@ class Exec:
             except _Raise as r:
                 outcome, val = "raise", r.exc
             self.paths.append(Path(list(self.pc[len(self.pre):]), list(self.facts), outcome, val, env, list(self._taken), list(self.effects)))
+            if self.opts.get("on_path_end"):
+                self.paths[-1].state = self.opts["on_path_end"]()
             stack.extend(self._pending)
         return self.paths
 
